@@ -156,6 +156,14 @@ def stmt_class(stmt: Optional[Dict[str, Any]]) -> str:
     return t
 
 
+def prev_class(stmt: Optional[Dict[str, Any]]) -> str:
+    """Coarser class used in 'label after <...>' fingerprints: instructions by operand-slot kinds only."""
+    if stmt and stmt["t"] == "instr":
+        kinds = sorted(set(S.slots_of(stmt["shape"])))
+        return "instruction" + (" with %" + "/%".join(kinds) + " operand" if kinds else " without operand slots")
+    return stmt_class(stmt)
+
+
 def stmt_size(stmt: Dict[str, Any]) -> int:
     t = stmt["t"]
     if t == "instr":
@@ -173,16 +181,31 @@ def stmt_size(stmt: Dict[str, Any]) -> int:
 def layout(prog: Dict[str, Any]) -> Dict[str, Any]:
     """Layout model. Returns per-line records and label table.
 
-    rec = {"idx", "section", "addr", "size", "emits", "prev": class of the previous sized statement of the section run
-           or the location directive that started the run, "bss_rel": bool (address relative to the unknown bss base)}
-    labels: name(upper) -> {"value", "idx", "bss_rel", "prev", "section", "pre_location": bool}
+    rec = {"idx", "section", "addr", "size", "emits", "loc", "bss_rel": address relative to the unknown bss base}
+    labels: name(upper) -> {"value", "idx", "bss_rel", "prev": what lies between the previous label of the same
+            section and this one (the candidates for a wrong size), "section", "pre_location": bool}
     """
     ptr = dict(SECTION_BASE)
     bss_rel = True  # bss labels are asserted relative to the first one until a .ORG fixes the pointer
     cur = "code"
-    prev_cls: Dict[str, str] = {k: "section start" for k in ptr}
+    events: Dict[str, List[str]] = {k: ["section start"] for k in ptr}
     recs: List[Dict[str, Any]] = []
     labels: Dict[str, Dict[str, Any]] = {}
+
+    def since(sec: str) -> str:
+        ev: List[str] = []
+        for e in events[sec]:
+            if e not in ev:
+                ev.append(e)
+        events[sec] = []
+        if not ev:
+            return "directly after the previous label"
+        loc = [e for e in (".ORG symbol", ".ORG", "SECTION re-entry", "section start") if e in ev]
+        st = [e for e in ev if e not in loc]
+        if len(st) > 2:
+            st = ["several statements"]
+        return "after " + " + ".join(loc + st)
+
     for idx, ln in enumerate(prog["lines"]):
         stmt = ln.get("stmt")
         label = ln.get("label")
@@ -197,17 +220,18 @@ def layout(prog: Dict[str, Any]) -> Dict[str, Any]:
                                      "pre_location": True}
         if t == "section":
             cur = stmt["name"].lower()
-            prev_cls[cur] = "SECTION re-entry" if prev_cls[cur] != "section start" else "section start"
+            if events[cur] != ["section start"]:
+                events[cur].append("SECTION re-entry")
             recs.append({"idx": idx, "section": cur, "addr": ptr[cur], "size": 0, "emits": False, "loc": True})
             continue
         if t == "org":
             if "sym" in stmt:
                 tgt = labels.get(stmt["sym"].upper())
                 ptr[cur] = tgt["value"] if tgt else 0
-                prev_cls[cur] = ".ORG symbol"
+                events[cur].append(".ORG symbol")
             else:
                 ptr[cur] = int(stmt["addr"])
-                prev_cls[cur] = ".ORG"
+                events[cur].append(".ORG")
             if cur == "bss":
                 bss_rel = False
             recs.append({"idx": idx, "section": cur, "addr": ptr[cur], "size": 0, "emits": False, "loc": True})
@@ -215,13 +239,13 @@ def layout(prog: Dict[str, Any]) -> Dict[str, Any]:
         addr = ptr[cur]
         if label and not pre_location:
             labels[label.upper()] = {"value": addr, "idx": idx, "bss_rel": (cur == "bss" and bss_rel),
-                                     "prev": "after " + prev_cls[cur], "section": cur, "pre_location": False}
+                                     "prev": since(cur), "section": cur, "pre_location": False}
         size = stmt_size(stmt) if stmt else 0
         recs.append({"idx": idx, "section": cur, "addr": addr, "size": size, "emits": bool(stmt) and cur != "bss",
                      "loc": False, "bss_rel": (cur == "bss" and bss_rel)})
         if stmt:
             ptr[cur] += size
-            prev_cls[cur] = stmt_class(stmt)
+            events[cur].append(prev_class(stmt))
     return {"recs": recs, "labels": labels}
 
 
@@ -284,6 +308,8 @@ def norm_error(msg: str) -> str:
     first = re.sub(r"label definition: .*", "label definition", first)
     first = re.sub(r"^(CALL|JP|JPZ|JPNZ|JPC|JPNC) target", "near target", first)
     first = re.sub(r"; use .*$", "", first)
+    first = re.sub(r"(Could not find a matching opcode) for .*", r"\1", first)
+    first = re.sub(r"(Invalid addressing mode combination) for .*", r"\1", first)
     first = _NUM.sub("N", first)
     return first[:100]
 
@@ -339,7 +365,7 @@ def check_program(prog: Dict[str, Any], stats: Optional[Dict[str, int]] = None) 
     if cross:
         bump("expect-reject")
         if res["ok"]:
-            V("page-rule", lines[cross[0]]["stmt"]["shape"], "near target on another 64 KiB page accepted",
+            V("page-rule", "near JP/CALL with a symbolic target", "near target on another 64 KiB page accepted",
               f"statement {cross[0]} ({stmt_text(lines[cross[0]]['stmt'])}) at {lay['recs'][cross[0]]['addr']:#x}"
               f" targets another page but the program assembled")
         elif "not on current page" not in res["error"]:
@@ -351,9 +377,11 @@ def check_program(prog: Dict[str, Any], stats: Optional[Dict[str, int]] = None) 
         where = stmt_class(lines[line_of[n]].get("stmt")) if (n in line_of) else "program"
         sym = "rejected: " + norm_error(res["error"])
         if "not on current page" in res["error"]:
-            V("page-rule", where, "near target on the same 64 KiB page rejected", res["error"].splitlines()[0])
+            V("page-rule", "near JP/CALL with a symbolic target", "near target on the same 64 KiB page rejected", res["error"].splitlines()[0])
         else:
-            V("accept", where, sym, res["error"].splitlines()[0][:200])
+            kind = lines[line_of[n]]["stmt"]["t"] if (n in line_of and lines[line_of[n]].get("stmt")) else "program"
+            V("accept", "instruction statement" if kind == "instr" else kind, sym,
+              f"{where}: " + res["error"].splitlines()[0][:200])
         return viols
 
     bump("assembled")
@@ -385,9 +413,14 @@ def check_program(prog: Dict[str, Any], stats: Optional[Dict[str, int]] = None) 
                     symp = "label takes the address set by the following directive"
                 else:
                     symp = "label address differs from the sum of the preceding statement sizes"
-                V("label-address", lab["prev"], symp,
+                V("label-address", lab["prev"] if lab["pre_location"] else "label " + lab["prev"], symp,
                   f"label {name} (line {lab['idx']}, section {lab['section']}): symbol table {obs_syms[name]:#x}, "
                   f"model {exp:#x}")
+
+    if viols:
+        # Everything below (byte placement, references) is derived from the label addresses: with the symbol table
+        # already off, further verdicts would only restate the same root cause under other names.
+        return viols[:1]
 
     # symbol values used for references: what the assembler itself reports (model for the ones it lacks)
     syms: Dict[str, int] = {k: v["value"] for k, v in lay["labels"].items()}
@@ -396,7 +429,10 @@ def check_program(prog: Dict[str, Any], stats: Optional[Dict[str, int]] = None) 
     # ---- image
     covered = set()
     bss_ranges: List[Tuple[int, int]] = []
+    n_known_style = 0  # violations that do not describe a placement problem (standalone path rejects a literal)
     for rec in lay["recs"]:
+        if len(viols) > n_known_style:
+            return viols  # first placement/encoding violation in source order is the witness; the rest cascades
         ln = lines[rec["idx"]]
         stmt = ln.get("stmt")
         if not stmt or rec.get("loc"):
@@ -423,6 +459,7 @@ def check_program(prog: Dict[str, Any], stats: Optional[Dict[str, int]] = None) 
                 V("standalone-equiv", "near JP/CALL with a same-page target literal above 0xFFFF",
                   "instruction alone is rejected while the label form assembles",
                   f"'{text}' at {a:#x}: {(err or '').splitlines()[0][:120]}")
+                n_known_style += 1
                 # the maintainers' low-16 literal form is the remaining standalone spelling
                 text = stmt_text(stmt, 0, subst=syms, near_low16=True)
                 exp, err = standalone(text, a)
@@ -464,7 +501,7 @@ def check_program(prog: Dict[str, Any], stats: Optional[Dict[str, int]] = None) 
                 V("bytes-at-address", cls, "data bytes differ from the directive's arguments",
                   f"line {rec['idx']} '{stmt_text(stmt)}' at {a:#x}: image {bytes(got).hex()}, expected {exp.hex()}")
     extra = sorted(set(img) - covered)
-    if extra:
+    if extra and len(viols) == n_known_style:
         in_bss = any(lo <= extra[0] < hi for lo, hi in bss_ranges)
         V("image-extent", "bss section" if in_bss else "program",
           "bytes emitted outside every emitting statement's range",
